@@ -58,6 +58,7 @@ class ModelInner:
         self.frozen = False
         self.pre_mutation = None  # hook(kind, args) called before each primitive (C16 interference)
         self.fail_paths = {}  # path -> exception to raise when a file is *placed* there (fault injection)
+        self.reverse_listing = False  # directory listing order is unspecified: harnesses may flip it
 
     # ------------------------------------------------------------------ helpers
     def _tick(self):
@@ -168,7 +169,7 @@ class ModelInner:
             for q in coll:
                 if q != p and q.startswith(pre) and "/" not in q[n:]:
                     out.append(q)
-        return sorted(out)
+        return sorted(out, reverse=self.reverse_listing)
 
     def ls(self, p, detail=False, **kw):
         p = self._resolve(p)
